@@ -36,6 +36,7 @@ type Engine struct {
 	files    map[string]*ast.File
 	loadSecs float64
 	fieldFuncs map[string]*Contract
+	funcTypes  map[string]*Contract
 	lines    map[string][]string
 	mu       sync.Mutex
 }
@@ -113,6 +114,13 @@ func (eng *Engine) bindContracts() {
 				eng.fieldFuncs = map[string]*Contract{}
 			}
 			eng.fieldFuncs[c.PkgPath+"."+strings.TrimPrefix(c.RecvType, "*")+"."+c.Name] = c
+			continue
+		}
+		if c.FuncType {
+			if eng.funcTypes == nil {
+				eng.funcTypes = map[string]*Contract{}
+			}
+			eng.funcTypes[c.PkgPath+"."+c.Name] = c
 			continue
 		}
 		fn, why := eng.resolveFunc(c)
